@@ -204,6 +204,12 @@ func CancelInBuildHist(idx, proto, n int) *Hist {
 	return &Hist{Index: idx, Proto: proto, TimeoutMs: 5000, Coalesce: false, CancelInBuild: n, Fates: []Fate{FOK, FOK, FOK}, CModes: []CMode{CNone, CNone, CNone}}
 }
 
+// FlagBodyHist: compress-flagged answer on a connection without compressor (variant 1..3, see Hist.FlagBody).
+func FlagBodyHist(idx, proto, variant int) *Hist {
+	return &Hist{Index: idx, Proto: proto, TimeoutMs: 5000, Coalesce: idx%2 == 0, FlagBody: variant,
+		Fates: []Fate{FOK, FOK, FOK}, CModes: []CMode{CNone, CNone, CNone}}
+}
+
 // Term prints the report's logs as a Coq term of type C01.Corr.case.
 func (rep *Report) Term() string {
 	var logs []string
@@ -299,6 +305,8 @@ func Emit(o *hlib.Out, reps []*Report) {
 			kind = "heartbeat-error-frame"
 		case h.CancelInBuild > 0:
 			kind = "cancel-in-build"
+		case h.FlagBody > 0:
+			kind = "compress-flag-no-compressor"
 		case h.TimeoutLimit > 0:
 			kind = "timeout-limit"
 		case h.Handshake != 0:
